@@ -241,13 +241,13 @@ Definition step (lb : label) (s : sys) : option sys :=
       end
   end.
 
-Fixpoint run (tr : list label) (s : sys) : option sys :=
+Fixpoint runs (tr : list label) (s : sys) : option sys :=
   match tr with
   | [] => Some s
-  | lb :: r => match step lb s with Some s' => run r s' | None => None end
+  | lb :: r => match step lb s with Some s' => runs r s' | None => None end
   end.
 
-Definition reach (calls : list call) (tr : list label) (s : sys) : Prop := run tr (init calls) = Some s.
+Definition reach (calls : list call) (tr : list label) (s : sys) : Prop := runs tr (init calls) = Some s.
 
 (* every task has run to completion, nothing is left to arrive *)
 Definition all_done (s : sys) : Prop := (forall t, prog (tasks s t) = []) /\ future s = [] /\ inbox s = [].
